@@ -89,7 +89,7 @@ var props = []Prop{
 		Harnesses: []H{{Pkg: "ecs", Fn: "HC07_Before"}, {Pkg: "ecs", Fn: "HC07_After"}, {Pkg: "ecs", Fn: "HC07_Unregister", W: 4}, {Pkg: "ecs", Fn: "HDeep", Tier: "thorough"},
 			{Pkg: "ecs", Fn: "HC07_Before", Tags: "tiny", Tier: "thorough"}, {Pkg: "ecs", Fn: "HC07_After", Tags: "tiny", Tier: "thorough"}, {Pkg: "generic", Fn: "HC18_Builders"}},
 		Conform: stdConform,
-		Bounds:  "filter registered before any table exists (relation targets = handles issued later) or after one of 11 prefixes (incl. retired tables, dead targets, re-issued target ids, self-target, Reset over populated relation tables); 9 filter kinds (All, mask, without, exclusive, relation filters with any issued/zero/future target, and a relation filter whose component filter also matches non-relation tables); then 1 operation out of 10: table creation, relation-table creation, RemoveEntity, Relations.Set, Reset, Reset + re-issue + new child, and Batch.RemoveEntities / Batch.Exchange(Q) / Batch.SetRelation(Q) THROUGH the registered filter; oracle: registered vs original filter on the same world (same entities, same Count), model for batch effects, cache clauses of the structural invariant; Unregister/double register/use after unregister on 3 registrations; 2 configurations (thorough 6); registered generic filters (generic.FilterN.Register / Unregister inside symbolic builder sequences, incl. fixed relation targets) by HC18_Builders, run here too",
+		Bounds:  "filter registered before any table exists (relation targets = handles issued later) or after one of 11 prefixes (incl. retired tables, dead targets, re-issued target ids, self-target, Reset over populated relation tables); 9 filter kinds (All, mask, without, exclusive, relation filters with any issued/zero/future target, and a relation filter whose component filter also matches non-relation tables); then 1 operation out of 10: table creation, relation-table creation, RemoveEntity, Relations.Set, Reset, Reset + re-issue + new child, and Batch.RemoveEntities / Batch.Exchange(Q) / Batch.SetRelation(Q) THROUGH the registered filter; oracle: registered vs original filter on the same world (same entities, same Count), model for batch effects, cache clauses of the structural invariant; Unregister/double register/use after unregister on 3 registrations; 2 configurations (thorough 4; C10 thorough 3); registered generic filters (generic.FilterN.Register / Unregister inside symbolic builder sequences, incl. fixed relation targets) by HC18_Builders, run here too",
 		Outside: "more than one operation after registration beyond the prefixes; logic-combination filters (the cache only calls Matches, decided in C04)",
 	},
 	{
@@ -104,14 +104,14 @@ var props = []Prop{
 		ID: "C10",
 		Harnesses: []H{{Pkg: "ecs", Fn: "HC10_Illegal"}, {Pkg: "ecs", Fn: "HC10_Illegal", Tags: "tiny", Tier: "thorough"}, {Pkg: "ecs", Fn: "HC03_BatchQuery"}},
 		Conform: stdConform,
-		Bounds:  "6 prefixes x 1 failed call (thorough: followed by a second, fixed failed call) out of 10 illegal classes with all arguments symbolic and constrained only to be illegal per the documentation: Add/Remove/Exchange (dead or recycled entity, present/absent component, second relation), Assign (incl. no components), every accessor/mutator on a removed entity, Set / write through Get on a missing component, creation with two relations / target without relation / relation not among the components / non-relation named as relation (ids and values), duplicate ids (NewEntity, NewEntityWith, Add, Remove, Exchange), non-positive batch counts (fully symbolic count <= 0, NewBatch and NewBatchQ), Relations.Set and Relations.Exchange / Builder.Add with target (dead entity, wrong component, dead target, no effect); asserted: panic, then all observables = model, structural invariant, pool/index/row digest unchanged, world unlocked, and two further legal operations behave per the model; 2 configurations (thorough 6). filter misuse (registering a registered filter, unregistering twice, unregistering or querying through a stale handle after a later registration); out-of-range indices (fully symbolic, 64 bit) on batch-result queries by HC03_BatchQuery, run here too; out-of-range indices on plain queries and non-positive steps are decided in C03, further cache histories in C07, resources in C20, type limit in C16, LoadEntities in C17.",
+		Bounds:  "6 prefixes x 1 failed call (thorough: followed by a second, fixed failed call) out of 10 illegal classes with all arguments symbolic and constrained only to be illegal per the documentation: Add/Remove/Exchange (dead or recycled entity, present/absent component, second relation), Assign (incl. no components), every accessor/mutator on a removed entity, Set / write through Get on a missing component, creation with two relations / target without relation / relation not among the components / non-relation named as relation (ids and values), duplicate ids (NewEntity, NewEntityWith, Add, Remove, Exchange), non-positive batch counts (fully symbolic count <= 0, NewBatch and NewBatchQ), Relations.Set and Relations.Exchange / Builder.Add with target (dead entity, wrong component, dead target, no effect); asserted: panic, then all observables = model, structural invariant, pool/index/row digest unchanged, world unlocked, and two further legal operations behave per the model; 2 configurations (thorough 4; C10 thorough 3). filter misuse (registering a registered filter, unregistering twice, unregistering or querying through a stale handle after a later registration); out-of-range indices (fully symbolic, 64 bit) on batch-result queries by HC03_BatchQuery, run here too; out-of-range indices on plain queries and non-positive steps are decided in C03, further cache histories in C07, resources in C20, type limit in C16, LoadEntities in C17.",
 		Outside: "empty graph nodes / tables left behind by a failed graph walk (visible only through Stats().Nodes, not an observable named by the property); sequences of more than two failed calls",
 	},
 	{
 		ID: "C11",
 		Harnesses: []H{{Pkg: "ecs", Fn: "HC11_Events"}, {Pkg: "ecs", Fn: "HC11_Events", Tags: "tiny", Tier: "thorough"}, {Pkg: "ecs", Fn: "HDeepEvents"}},
 		Conform: stdConform,
-		Bounds:  "8 prefixes x 1 operation with a recording listener subscribed to everything: the 11 single-entity operation kinds with every legal argument, the 5 batch families incl. Q variants (events only at close/exhaustion), removal / retarget / Reset family, and no-op calls (Exchange/Add/Remove without components, Relations.Set to the current target); per event: type bits, Added/Removed masks, AddedIDs/RemovedIDs as sets, Old/NewRelation nil-ness and value, OldTarget, and what the world shows at delivery (lock state, liveness, Mask, target: after-state, or before-state for removals); exactly one event per changed entity as a multiset; HDeepEvents: the same oracle after every step of every history of 3 (thorough 4) reduced-argument operations from an empty world; 2 configurations (thorough 6)",
+		Bounds:  "8 prefixes x 1 operation with a recording listener subscribed to everything: the 11 single-entity operation kinds with every legal argument, the 5 batch families incl. Q variants (events only at close/exhaustion), removal / retarget / Reset family, and no-op calls (Exchange/Add/Remove without components, Relations.Set to the current target); per event: type bits, Added/Removed masks, AddedIDs/RemovedIDs as sets, Old/NewRelation nil-ness and value, OldTarget, and what the world shows at delivery (lock state, liveness, Mask, target: after-state, or before-state for removals); exactly one event per changed entity as a multiset; HDeepEvents: the same oracle after every step of every history of 3 (thorough 4) reduced-argument operations from an empty world; 2 configurations (thorough 4; C10 thorough 3)",
 		Outside: "order of events inside one batch call; more than one operation after installing the listener",
 	},
 	{
@@ -125,7 +125,7 @@ var props = []Prop{
 		ID: "C15",
 		Harnesses: []H{{Pkg: "ecs", Fn: "HC15_Reset"}, {Pkg: "ecs", Fn: "HC15_Reset", Tags: "tiny", Tier: "thorough"}},
 		Conform: stdConform,
-		Bounds:  "a filter out of 5 (mask, relation component, relation filter with zero target / with the first handle a world issues, relation filter over a non-relation component filter) registered before the history; 6 prefixes (populated tables, two parents, dead target, retired table, recycled ids, re-issued target id), resources added; right before the reset optionally: every entity removed one by one, or a query opened and closed; then Reset (thorough: two cycles): unlocked, no resources, no entities, registered filter = original filter, invariant; then 2 operations with a recording listener: behaviour must be that of a fresh world, i.e. handles {1,0},{2,0},.. with last-removed-first re-use (handle-sequence model), events per the C11 oracle, observables and queries (plain and registered) per the model, resource ids still valid; 2 configurations (thorough 6)",
+		Bounds:  "a filter out of 5 (mask, relation component, relation filter with zero target / with the first handle a world issues, relation filter over a non-relation component filter) registered before the history; 6 prefixes (populated tables, two parents, dead target, retired table, recycled ids, re-issued target id), resources added; right before the reset optionally: every entity removed one by one, or a query opened and closed; then Reset (thorough: two cycles): unlocked, no resources, no entities, registered filter = original filter, invariant; then 2 operations with a recording listener: behaviour must be that of a fresh world, i.e. handles {1,0},{2,0},.. with last-removed-first re-use (handle-sequence model), events per the C11 oracle, observables and queries (plain and registered) per the model, resource ids still valid; 2 configurations (thorough 4; C10 thorough 3)",
 		Outside: "more than 2 operations after the reset; more than two reset cycles",
 	},
 	{
@@ -168,7 +168,7 @@ var props = []Prop{
 		ID: "C14",
 		Harnesses: []H{{Pkg: "ecs", Fn: "HC14_Pointers"}, {Pkg: "ecs", Fn: "HC14_Pointers", Tags: "tiny", Tier: "thorough"}},
 		Conform: stdConform,
-		Bounds:  "REDUCED SCOPE: necessary storage-discipline conditions, not GC schedules. A world with pointer-carrying components in tables [P], [A,P] and a relation table, then 2 symbolic operations out of 13: creation (growth), write through Get, Set, Assign, move by add/remove of other components, removal of the component, removal of entities (swap-remove), batch move, relation move (single and batch, the relation component carries data), Reset, batch removal, children with pointer components; decided in the engine for every path: (N1/N2) every pointer-carrying value written by the library - by typed stores, raw byte copies, reflect.Copy - lands in memory whose allocation type has a pointer word at that offset (what the collector scans), no raw copy cuts a pointer, (N3) storage beyond a table's length and all storage of retired / reset tables is zero, components keep the exact pointer last written and the referent's value; 2 configurations (thorough 6). Native replay of a counterexample additionally sets finalizers and forces collections: referents of live components must survive, all others must be collected.",
+		Bounds:  "REDUCED SCOPE: necessary storage-discipline conditions, not GC schedules. A world with pointer-carrying components in tables [P], [A,P] and a relation table, then 2 symbolic operations out of 13: creation (growth), write through Get, Set, Assign, move by add/remove of other components, removal of the component, removal of entities (swap-remove), batch move, relation move (single and batch, the relation component carries data), Reset, batch removal, children with pointer components; decided in the engine for every path: (N1/N2) every pointer-carrying value written by the library - by typed stores, raw byte copies, reflect.Copy - lands in memory whose allocation type has a pointer word at that offset (what the collector scans), no raw copy cuts a pointer, (N3) storage beyond a table's length and all storage of retired / reset tables is zero, components keep the exact pointer last written and the referent's value; 2 configurations (thorough 4; C10 thorough 3). Native replay of a counterexample additionally sets finalizers and forces collections: referents of live components must survive, all others must be collected.",
 		Outside: "write barriers, concurrent marking, escape analysis and GC timing (properties of the Go runtime and compiler, not present at go/ssa level); transient states inside one operation (N4 of the design: ordering of zeroing and copying between safepoints) are not checked",
 	},
 }
